@@ -82,6 +82,8 @@ type Ctx struct {
 	allowRetry bool
 	readerSide map[*ssa.Function]bool
 	canon      *canonTable
+	retBusy    map[*ssa.Function]bool
+	factDepth  int
 }
 
 func (c *Ctx) pos(p token.Pos) string {
